@@ -220,6 +220,23 @@ pub fn exec_probe<M: Machine>(tr: &Trace, stats: &mut Stats, known: &BTreeSet<St
                 for v in query_checked::<M>(&fw, *a, confs, stats) {
                     record!(v);
                 }
+                // two tenants taking turns: the partner's answers are judged like any other
+                // query (documented outcome, twin refinement), then both are asked in alternation
+                if let (Some(b), Some(&c)) = (crate::oracle::alternation_partner::<M>(&fw.w, *a), confs.first()) {
+                    for v in query_checked::<M>(&fw, b, &[c], stats) {
+                        record!(v);
+                    }
+                    for v in query_checked::<M>(&fw, *a, &[c], stats) {
+                        record!(v);
+                    }
+                    let probe_v = match (fw.w.get(*a), fw.w.get(b)) {
+                        (Some(sa), Some(sb)) => crate::oracle::alternation_probe::<M>(&sa.st, &sb.st, c, true, (*a, b), stats),
+                        _ => None,
+                    };
+                    if let Some(v) = probe_v {
+                        record!(v);
+                    }
+                }
             }
             _ => {}
         }
@@ -235,6 +252,18 @@ pub fn exec_probe<M: Machine>(tr: &Trace, stats: &mut Stats, known: &BTreeSet<St
         }
         for v in query_checked::<M>(&fw, i, &final_confs, stats) {
             record!(v);
+        }
+    }
+    // conf-major sweep: every live slot is asked the same question in turn (the slot-major loop
+    // above never puts two states' identical questions next to each other)
+    let live = fw.w.live();
+    if live.len() >= 2 {
+        for &c in &final_confs[..2] {
+            for &i in &live {
+                for v in query_checked::<M>(&fw, i, &[c], stats) {
+                    record!(v);
+                }
+            }
         }
     }
     reach.shape = dg.0;
@@ -840,7 +869,7 @@ pub fn generate<M: Machine>(property: &str, verif_seed: u64, run: u64, mode: Mod
     let max_len = if big_chunks { 700 } else { *r.pick(&[4usize, 8, 16, 64]) };
     let len0 = r.usize_in(0, max_len);
     let len1 = if M::STREAMS == 2 { if M::LOCKSTEP { len0 } else { r.usize_in(0, max_len) } } else { 0 };
-    let fams: [u8; 5] = [0, 2, 3, 5, 7];
+    let fams: [u8; 6] = [0, 2, 3, 5, 7, FAM_POW2];
     let family = if flt == Flt::Int { r.below(10) as u8 } else { *r.pick(&fams) };
     // "wide dynamic range": a third of the runs live far away from 1 (the squares of the records
     // and of their reciprocals still fit the element type)
